@@ -33,6 +33,7 @@ def runCase (lines : Array String) : Array String := Id.run do
       if !ids.contains (nat! id) then ids := ids ++ [nat! id]
       out := out.push (if raw.dead then "sub died" else if raw.errs.length > before.errs.length then "sub err" else "sub ok")
     | ["racepub", _, _] => out := out.push "racepub ok"
+    | ["cancelresume", _, _, _] => out := out.push "cancelresume ok"
     | ["restart"] =>
       s := stepOp plan s .restart
       out := out.push "restart"
